@@ -570,9 +570,9 @@ func (envs *Manager) TeardownEnvironment(environmentId uid.ID, force bool) error
 		"partition": environmentId.String(),
 	}).Info("tearing down environment")
 
-	envs.mu.RLock()
+	// environment() takes the read lock itself: holding it around the call would take it twice, and
+	// sync.RWMutex is not reentrant (a writer arriving in between would deadlock the manager)
 	env, err := envs.environment(environmentId)
-	envs.mu.RUnlock()
 
 	if err != nil {
 		return err
